@@ -359,7 +359,7 @@ def prog_source(sc):
             L.append('define_method(int, m%d, (%s)) { return %d; }' % (mi, ', '.join('C%d&' % c for c in d), di))
     L += ['template<class F> void call(const char* what, F f) {',
           '    std::cout << what << " = ";',
-          '    try { std::cout << "d" << f(); }',
+          '    try { auto r = f(); std::cout << "d" << r; }',
           '    catch (yorel::yomm2::static_slot_error&) { std::cout << "static_slot_error"; }',
           '    catch (yorel::yomm2::static_stride_error&) { std::cout << "static_stride_error"; }',
           '    catch (yorel::yomm2::resolution_error& e) { std::cout << "resolution_error " << (int)e.status; }',
@@ -592,7 +592,7 @@ def main():
     rng = vlib.Rng(ctx.seed)
     cases = load_corpus('C12')
     ncorpus = len(cases)
-    ngen = 2500 if ctx.thorough else 160
+    ngen = 25000 if ctx.thorough else 1500
     if ctx.broken:
         ngen *= 2
     for i in range(ngen):
@@ -664,7 +664,7 @@ def main():
 
     # 4. programs
     pstats = []
-    nprog = 6 if ctx.thorough else 1
+    nprog = 8 if ctx.thorough else 2
     t1 = time.time()
     for k in range(nprog):
         prng = vlib.Rng(ctx.seed * 7919 + k)
